@@ -9,7 +9,7 @@ PROP = dict(
         rule="dutch-price: case = (premium, end factor, duration, oracle price) from a lattice plus random durations/factors; every "
              "case posts the price through the real UpdateDutchAuction at t = 0, 1, D-1, D and 4-11 random instants and calls "
              "GetPriceFromLinearDecreaseFunction directly on 3 random (tau, t); non-trivial = the price moved. "
-             "dutch-v2: case = auction/whitelisting parameters, two positions (vault via MsgLiquidateInternalKeeper, vault via "
+             "dutch-v2: cases 0-3 = corpus (regression inputs of the repaired C10-F3 / C10-F2: external auction with keeper incentive closed by a full bid; collateral-exhausted close against a reserve of 1000; the same with a big reserve; two external auctions closed by exact / over-sized bids), then generated: case = auction/whitelisting parameters, two positions (vault via MsgLiquidateInternalKeeper, vault via "
              "LiquidateIndividualVault, external via MsgLiquidateExternalKeeper) seized through the real liquidation path, app reserve "
              "none/tiny/big, then 4-15 ops: MsgPlaceMarketBid by 3 bidders (1 unit, small, 1-99 % of the remaining debt, exact, "
              "exact-1, exact+1, 3x, leaving dust, wrong denom, zero, one poor bidder), auctionsV2.BeginBlocker ticks (dt 0, 1, 5, D/4, "
@@ -24,7 +24,7 @@ PROP = dict(
     )
 
 MANIFEST = dict(
-    level_text="Generation-2 Dutch auction (x/auctionsV2) modelled statement by statement with exact sdk.Dec arithmetic. Proved for all inputs: the posted price is non-increasing between restarts, at most the start price and non-negative; totals over any bid/tick history (paid <= target debt, received <= collateral); per-bid price bound; close completeness per initiator type. The end-price clause is proved refuted (truncated time-to-zero) and proved on the complement of the executable class; two further defects (reserve top-up silently skipped, external close panics on the empty keeper address) are delimited by executable classes and reproduced on the real keepers. The model is tied to /repo by a differential run of the real liquidation path, MsgPlaceMarketBid and auctionsV2.BeginBlocker on every check.",
+    level_text="Generation-2 Dutch auction (x/auctionsV2) modelled statement by statement with exact sdk.Dec arithmetic. Proved for all inputs: the posted price is non-increasing between restarts, at most the start price and non-negative; totals over any bid/tick history (paid <= target debt, received <= collateral); per-bid amounts; Proved for every closing bid without exception class: close completeness per initiator type incl. the external keeper incentive, and that the app reserve is debited exactly the shortfall, only when it covers it, and stays backed. The end-price clause is proved refuted (truncated time-to-zero, known finding C10-F1) and proved on the complement of the executable class. The two further defects found on the original tree (reserve top-up silently skipped: C10-F2; external close panics on the empty keeper address: C10-F3) are repaired by fixes/C10-F2 and fixes/C10-F3; the model follows the repaired code, their witnesses stay in the harness corpus and as Examples, and a recurrence is reported as a plain violation. The model is tied to /repo by a differential run of the real liquidation path, MsgPlaceMarketBid and auctionsV2.BeginBlocker on every check.",
     design_ref="DESIGN.md section 4 C10",
     level_note="Trusted: Coq kernel, extraction (ExtrOcamlBasic), OCaml runner, Go harness. Generation 1 (x/auction) is modelled for the price function and the bid arithmetic only. No axioms (Closed under the global context).",
     technique="Coq proof (monotonicity of Dec arithmetic, invariants by induction over bid/tick histories) + model/implementation correspondence run",
